@@ -318,7 +318,7 @@ Proof.
   apply Forall_forall. intros o H. apply in_map_iff in H as [r [<- H]]. cbn. exact (proj1 (Forall_forall _ _) F r H).
 Qed.
 
-(* ---- the clause that was false before commit e76651c (DeleteRegion did not look at the write-back batch):
+(* ---- the clause that was false before commit 8a5de01 (DeleteRegion did not look at the write-back batch):
         heartbeats one at a time on either backend, then a flush: storage holds served regions only ---- *)
 Definition storage_subset_full : Prop :=
   forall wb rs, Forall (fun r => wf_region r = true) rs ->
